@@ -314,6 +314,17 @@ func (r *c08run) exec(i int, st behav.Step) {
 		}
 	case "ClearBit":
 		q = fmt.Sprintf("Clear(%s, f=%s)", r.colArg(st.Int("c")), r.rowArg(st.Int("r")))
+	case "Store":
+		q = fmt.Sprintf("Store(Row(f=%s), f=%s)", r.rowArg(st.Int("rs")), r.rowArg(st.Int("rd")))
+	case "ClearRow":
+		q = fmt.Sprintf("ClearRow(f=%s)", r.rowArg(st.Int("r")))
+	case "SnapSet":
+		// a Set that pushes the fragment's op count over MaxOpN: the fragment snapshots
+		// (fragments the Set itself creates keep the default MaxOpN)
+		pilosa.VerifDurSetMaxOpN(r.m.Server.Holder(), 0)
+		_, err = r.query(r.ix, fmt.Sprintf("Set(%s, f=%s)", r.colArg(st.Int("c")), r.rowArg(st.Int("r"))))
+		pilosa.VerifDurAwaitSnapshots(r.m.Server.Holder())
+		pilosa.VerifDurSetMaxOpN(r.m.Server.Holder(), 10000)
 	case "ImportBits":
 		err = r.importBits(toIntLists(st["b"]))
 	case "SetVal":
@@ -784,7 +795,10 @@ func (r *c08run) project() map[string]string {
 		}
 		if r.fc.Type == "set" || r.fc.Type == "mutex" {
 			if r.fc.Cache != "none" {
-				qs = append(qs, "TopN(f)", "TopN(f, n=1)", "TopN(f, Row(f="+rows[0]+"), n=2)")
+				qs = append(qs, "TopN(f)", "TopN(f, n=1)", "TopN(f, n=2)", "TopN(f, Row(f="+rows[0]+"), n=2)")
+				if !r.fc.Keys {
+					qs = append(qs, fmt.Sprintf("TopN(f, ids=[%s, %s])", rows[0], rows[1]))
+				}
 			}
 		}
 		for c := 0; c < 3; c++ { // (column 3 may not have a key yet: naming it would create one)
